@@ -27,7 +27,7 @@ timeout 600 bash -c "$CMD" > /tmp/seedver.mut.log 2>&1; MUT=$?
 echo "RESULT clean_demo_exit=$CLEAN build=$BUILD vet=$VET baseline=$BASE mutant_demo_exit=$MUT"
 tail -1 /tmp/seedver.base.log
 if [ $CLEAN = 0 ] && [ $BUILD = 0 ] && [ $BASE = 0 ] && [ $MUT != 0 ]; then
-  mkdir -p $OUT; git diff > $OUT/patch.diff; cp $DEMO $OUT/; cp $SRC/note${K}.md $OUT/note.md 2>/dev/null
+  mkdir -p $OUT; rm -f $DEST/$(basename $DEMO); git add -A -N . ; git diff > $OUT/patch.diff; cp $DEMO $OUT/; cp $SRC/note${K}.md $OUT/note.md 2>/dev/null
   echo "$CMD" > $OUT/demo_cmd.txt
   echo "KEPT $OUT"
 else
